@@ -34,6 +34,10 @@ type ROp struct {
 	Seq uint32 `json:"seq,omitempty"`
 	Typ uint16 `json:"typ,omitempty"`
 	Ms  int    `json:"ms,omitempty"`
+	// TS, when not 0, is the time stamp the record carries, in milliseconds since 1970 (the header of a raw record, the
+	// Timestamp field of a message). The library is documented to group and order by sequence number only, and the
+	// model has no such field: whatever the stamps are, the outcome must be the one the model computes without them.
+	TS int64 `json:"ts,omitempty"`
 	// re-entrant calls: Nest are made from inside the At-th ReassemblyComplete callback of this operation (or
 	// right after it returns, if it makes fewer callbacks); they are complete operations of their own
 	Nest []ROp `json:"nest,omitempty"`
@@ -174,12 +178,18 @@ func runReasmImpl(c RCase) (obs []opObs, panicMsg string) {
 		switch op.K {
 		case "push":
 			m := &auparse.AuditMessage{RecordType: auparse.AuditMessageType(op.Typ), Sequence: op.Seq}
+			if op.TS != 0 {
+				m.Timestamp = time.UnixMilli(op.TS)
+			}
 			st.ids[m] = op.ID
 			r.PushMessage(m)
 		case "nil":
 			r.PushMessage(nil)
 		case "raw":
 			buf := []byte(fmt.Sprintf("audit(1500000000.123:%d): vid=%d", op.Seq, op.ID))
+			if op.TS > 0 {
+				buf = []byte(fmt.Sprintf("audit(%d.%03d:%d): vid=%d", op.TS/1000, op.TS%1000, op.Seq, op.ID))
+			}
 			ret = r.Push(auparse.AuditMessageType(op.Typ), buf)
 			// the caller's buffer belongs to the caller again once Push has returned (receive loops reuse
 			// it): what is delivered later must be what was pushed, not what the buffer holds by then
@@ -896,7 +906,58 @@ func reasmNontrivial(c RCase, obs []opObs) (bool, []string) {
 
 // runReasmCase executes one case on implementation and model and records the outcome.
 // It returns the violation found, if any.
+// reasmStampRng, when set, gives every second history time stamps (see ROp.TS) before it is run.
+var reasmStampRng *rand.Rand
+
+// stampCase gives the records of a history time stamps in one of several patterns: the same everywhere, growing with
+// the order of arrival, falling with the sequence number (an older stamp on the higher number), different within one
+// sequence, far in the past, or in the future (a clock that was stepped back).
+func stampCase(rng *rand.Rand, c RCase) RCase {
+	const y2017, y2100 = int64(1500000000123), int64(4102444800000)
+	now := time.Now().UnixMilli()
+	mode := rng.Intn(7)
+	var stamp func(ops []ROp) []ROp
+	n := int64(0)
+	stamp = func(ops []ROp) []ROp {
+		out := make([]ROp, len(ops))
+		for i, op := range ops {
+			if op.K == "push" || op.K == "raw" {
+				n++
+				switch mode {
+				case 0:
+					op.TS = y2017
+				case 1: // by arrival
+					op.TS = now - 100000 + n*7
+				case 2: // older stamp on the higher sequence number
+					op.TS = y2017 + 1000000 - int64(op.Seq%100000)*10
+				case 3: // differs within one sequence
+					op.TS = y2017 + n*1000 + int64(rng.Intn(3))
+				case 4: // future: a minute, an hour, decades ahead
+					op.TS = []int64{now + 60000, now + 3600000, y2100, now + 500}[rng.Intn(4)]
+				case 5: // a mixture
+					op.TS = []int64{1, y2017, now - 5000, now, now + 3600000, y2100, y2017 + int64(rng.Intn(1000000))}[rng.Intn(7)]
+				case 6: // only some records stamped
+					if rng.Intn(2) == 0 {
+						op.TS = []int64{y2017, now + 3600000, now - 3600000}[rng.Intn(3)]
+					}
+				}
+			}
+			if len(op.Nest) > 0 {
+				op.Nest = stamp(op.Nest)
+			}
+			out[i] = op
+		}
+		return out
+	}
+	c.Ops = stamp(c.Ops)
+	return c
+}
+
 func runReasmCase(ctx *Ctx, m *common.Model, c RCase, idx int) *common.Violation {
+	if reasmStampRng != nil && reasmStampRng.Intn(2) == 0 {
+		c = stampCase(reasmStampRng, c)
+		ctx.Res.Hist("time stamps varied")
+	}
 	obs, pmsg := runReasmImpl(c)
 	impl := make([]string, len(obs))
 	for i := range obs {
@@ -1047,13 +1108,22 @@ func reasmFamily(ctx *Ctx) error {
 		if v == nil {
 			return
 		}
+		// the history as it was run (it may carry time stamps the generator's copy does not)
+		if rc, ok := v.Input.(RCase); ok {
+			c = rc
+		}
+		keep := reasmStampRng
+		reasmStampRng = nil
 		sc := shrinkReasm(ctx, m, c, v.Kind)
 		if v2 := runReasmCaseQuiet(ctx, m, sc); v2 != nil {
 			v2.Case = v.Case
 			v = v2
 		}
+		reasmStampRng = keep
 		res.Violate(*v)
 	}
+	reasmStampRng = rand.New(rand.NewSource(ctx.Seed*7919 + 17))
+	defer func() { reasmStampRng = nil }()
 
 	idx := 0
 	// corpus first (shared by the whole family, plus the property's own)
